@@ -6,8 +6,8 @@ NOTE = ("Trusted base: Coq 8.16.1 kernel (vm_compute, no native_compute), tools/
         "the Go harness + /repo/verif_hooks.go (build tag verif), lib/vcheck.py. Details per theorem (Print Assumptions) in the evidence file.")
 CHECKS = {
  "C04": dict(
-   text="Theorems c04_ops/c04_const/c04_incdec/c04_assign/c04_conv/c04_float/c04_wf, for every operand value with no bound, about operator definitions regenerated from value.go on every run by go2v; right-hand sides are the Go semantics of GoSpec/GoPrim.v. Correspondence: generated model and GoPrim evaluated by vm_compute against the implementation (hook VerifBinOp/VerifAssign/VerifConvert) and against native Go arithmetic; system level: exhaustive 8-bit sweep of script functions in every syntactic position against native Go.",
-   note=NOTE + " C04: the use of the operators by do.go (INCDEC, LOCALINCDEC, CAST, LOCALSET ...) and by the compiler is tied by the system-level sweep, not by translation.",
+   text="Theorems c04_ops/c04_const/c04_incdec/c04_assign/c04_conv/c04_float/c04_wf and c04_vm_* (how each VM instruction applies them, over the dispatch cases regenerated from do.go), for every operand value with no bound, about operator definitions regenerated from value.go on every run by go2v; right-hand sides are the Go semantics of GoSpec/GoPrim.v. Correspondence: generated model and GoPrim evaluated by vm_compute against the implementation (hook VerifBinOp/VerifAssign/VerifConvert) and against native Go arithmetic; system level: exhaustive 8-bit sweep of script functions in every syntactic position against native Go.",
+   note=NOTE + " C04: the use of the operators by do.go (arithmetic/comparison/bit opcodes, INCDEC, LOCALINCDEC, CAST, CONVERT, LOCALSET, GLOBALSET, LOCALADD...) is tied by translation too (c04_vm_*: Gen/Steps_gen.v is regenerated from the exec switch of do.go); the choice of opcode and type operand by the compiler is tied by the system-level sweep.",
    technique="Coq proof over go2v-regenerated operator definitions + vm_compute correspondence + exhaustive differential sweep",
    ref="DESIGN.md section 5 C04"),
  "C05": dict(
@@ -41,8 +41,8 @@ CHECKS = {
    technique="Coq proof of stable-sort uniqueness and layout invariance over the go2v-regenerated table + correspondence + metamorphic/differential runs",
    ref="DESIGN.md section 5 C16"),
  "C02": dict(
-   text="Theorem c02_rules: for every rule of the table regenerated from compiler.go doOptimize, every matching window and EVERY frame state, executing the window equals executing the fused instruction (under the rule's explicit guard: numeric slot, int32 constant, 16-bit call operands, sign conditions); c02_optimizer_shape: the optimizer only replaces matched windows. The proof found the x - 0 / -0.0 defect (fixed). Correspondence: generic matcher vs real doOptimize (hook), model VM vs real VM on real compiled code (optimizer on/off alternating); system level: optimizer off vs on over every test-table string and generated programs (output, returned values+types, success/failure, error stage and line).",
-   note=NOTE + " C02: transparency of the optimizer across jumps (no jump targets the inside of a fused window; block lengths stable under re-optimisation) is NOT proved; covered by the third-pass-identity test and the off/on differential. Error LINE equality is checked by the differential only.",
+   text="Theorem c02_rules: for every rule of the table regenerated from compiler.go doOptimize, every matching window and EVERY frame state, executing the window equals executing the fused instruction (under the rule's explicit guard: numeric slot, int32 constant, 16-bit call operands, sign conditions); c02_optimizer_shape: the optimizer only replaces matched windows; c02_steps_from_source / c02_steps_cover: the step function the rule theorem is about equals, for 45 opcodes, the dispatch cases regenerated from do.go by go2v on every run. The proof found the x - 0 / -0.0 defect (fixed). Correspondence: generic matcher vs real doOptimize (hook), model VM vs real VM on real compiled code (optimizer on/off alternating); system level: optimizer off vs on over every test-table string and generated programs (output, returned values+types, success/failure, error stage and line).",
+   note=NOTE + " C02: calls, containers, attributes and iteration opcodes of the step model stay hand-transcribed (tie: run-level correspondence); transparency of the optimizer across jumps (no jump targets the inside of a fused window; block lengths stable under re-optimisation) is NOT proved; covered by the third-pass-identity test and the off/on differential. Error LINE equality is checked by the differential only.",
    technique="Coq proof of per-rule semantic equivalence over the go2v-regenerated rule table and the VM step model + correspondence + off/on differential",
    ref="DESIGN.md section 5 C02"),
  "C11": dict(
@@ -70,6 +70,11 @@ CHECKS = {
    note=NOTE + " C17: Model/Reload.v is a hand transcription of GLOBALFUNC/GLOBALZERO/GLOBALSET/GLOBALSTRUCT/SETMETHOD + addMethod/syncFields/newMethod (tie by correspondence; the instruction list of every Load is decompiled from the code the real compiler produced); versions differ in bodies only (the property's quantifier). One open known finding (a version that ADDS a field: old instances lack it).",
    technique="Coq proof by invariant over all load/capture/call histories on a model of the top-level instructions + correspondence + differential with native oracles",
    ref="DESIGN.md section 5 C17"),
+ "C20": dict(
+   text="Theorems: c20_ghost_erase (the ghost call chain of Model/Backtrace.v does not change what Model/VM.v computes), c20_bt_inv / c20_bt_call (for every program, fuel, frame and call depth: when a run fails, the backtrace holds exactly the positions of the active call instructions, innermost first, and a completed call leaves it as it was), c20_error_text, c20_stamp (every compiled instruction carries the position of the node it was compiled from), c20_fuse_pos / c20_fuse_pos_last / c20_fuse_line_static over the rule table regenerated from doOptimize (a fused instruction keeps the last window instruction's position), c20_fuse_same_report (for all rules whose earlier instructions cannot fail, fused and unfused code report the same position on any line layout), c20_fuse_early_loud_rules + c20_fuse_early_failure_refuted (the two remaining rules, with a machine-checked witness). Correspondence: model VM + ghost chain run the real compiled code of fault programs, every backtrace position compared; system level: generated call chains depth 1..30, 29 call positions, every fault kind, optimizer off vs on vs expectation.",
+   note=NOTE + " C20: Backtrace.v instruments the hand-transcribed VM model (tie by correspondence); the rule table is regenerated; positions of multi-line expressions: any line of the call expression is accepted against the expectation, the two optimizer modes must agree exactly. One open known finding (failure inside a callback run by a native).",
+   technique="Coq proof (backtrace invariant by induction on fuel over the VM model; position theorems by reflection on the go2v-regenerated rule table) + correspondence + differential optimizer on/off",
+   ref="DESIGN.md section 5 C20"),
  "C01": dict(
    text="C01 is claimed as the composition of the facet properties (each with its own theorems) plus a whole-program differential against the Go toolchain; the end-to-end part that is closed as a theorem is c01_expr_partial / c01_expr_eval: for every token list, variable assignment and operand value, goatlang's parse (generated table), opcode choice (generated infixMap) and operator implementations (generated from value.go) give Go's grouping and Go's int32 value. Correspondence: expression model vs implementation and vs real Go; model VM vs real VM on real compiled code; system level: generated programs of four profiles incl. multi-package layouts vs `go build`.",
    note=NOTE + " C01: no formal semantics of Go is available offline, so there is no single end-to-end theorem over whole programs (named _partial); statements, calls, containers, strings, printing, scoping and packages are decided by C02-C20; 'as the Go toolchain' in the differential means go1.23 on the same source with int := int32; fmt.Print/Sprint with several operands are outside (property statement).",
